@@ -56,6 +56,9 @@ class Type(Scope):
             self.inherit_var = None
         if self.inherit_var is not None:
             self._resolve_inherit_parent(obj_tree, inherit_version)
+        else:
+            # The parent type is gone: so are the members inherited from it
+            self.in_children = []
 
     def _extends_self(self) -> bool:
         seen = []
